@@ -49,6 +49,7 @@ def run(ck, m):
     _run(ck, m)
     watchers_monotone(ck, m)
     queue_position_decided_by_the_listing(ck, m)
+    every_write_can_reach_the_resolver(ck, m)
     lister_covers_records(ck, m)
     from nl import alias as _alias
     from props import C02 as _C02
@@ -690,3 +691,24 @@ def queue_position_decided_by_the_listing(ck, m):
           'the choice between "queue behind the newest conflict" and "first conflict" also depends on %s' % sorted(set(bad))[:4],
           '%s:%s' % (rb.file, rb.line))
     ck.floor('C13.n', n, 1, 'branches on the newest listed conflict in the resolver')
+
+
+def every_write_can_reach_the_resolver(ck, m):
+    """C13.o — see RULES"""
+    P = m.prog
+    ck.rule('C13.o', 'every write that can be refused for its version is handed to the conflict resolver: the store is called by the function that '
+                     'passes its VersionError on to the resolver, by the resolver and the resolution themselves, and by the creation of a database — '
+                     'a shortcut that calls the store directly ("a plain set has no version to compare") answers a plain write to a key in conflict '
+                     'with a raw VersionError: with an arbiter registered it is neither queued nor recorded')
+    sb = store_fn(m)
+    rb = resolver_fn(m)
+    callers = sorted({cb.id for cb, _bi in P.callers().get(sb.id, []) if not cb.id.startswith(('nundb::client::', 'nundb::command_line::'))})
+    # the wrapper: calls the store and, on the VersionError edge, the resolver
+    wrappers = {b.id for b in P.user_bodies() if any(callee(t) == sb.id for _, t in b.calls()) and any(callee(t) == rb.id for _, t in b.calls())}
+    ok_names = wrappers | {rb.id} | {c for c in callers if c.endswith(('resolve_conflit', 'bo::Databases::add_database', 'bo::Databases::new'))}
+    strangers = [short(c) for c in callers if c not in ok_names]
+    ck.ob('C13.o', short(sb.id), 'store-called-through-the-resolving-wrapper', bool(wrappers) and not strangers,
+          'the store is called by %s only' % [short(c) for c in callers] if wrappers and not strangers else
+          'the store is also called directly by %s: a version refusal on that path never reaches the conflict resolver' % strangers,
+          '%s:%s' % (sb.file, sb.line))
+    ck.floor('C13.o', len(callers), 3, 'callers of the store')
